@@ -60,6 +60,11 @@ def gen(ctx):
         if lo == 0 and hi == 0:
             lo = hi = 0.0
         f("clamp", (v, lo, hi), "run_clamp")
+    # extreme value admitted by CELER_EXPECT(!(hi < lo)): lo == hi
+    for b_ in (0.0, 1.0, -2.5, 1e300, 5e-324):
+        for v in (b_, math.nextafter(b_, INF), math.nextafter(b_, -INF), 7.0, -7.0):
+            f("clamp", (v, b_, b_), "run_clamp")
+            ctx.count("edge:clamp lo==hi")
     for v in spec + [rnd() for _ in range(40)]:
         f("nonneg", (v,), "run_nonneg")
         f("negate", (v,), "run_negate")
@@ -77,6 +82,7 @@ def gen(ctx):
             f("fastpow", (a, b), "run_fastpow")
     for b in (1.0, 0.5, 3.0, 1e-300):
         C.append(("fastpow0", "fastpow %s %s" % (hx(0.0), hx(b)), None, (0.0, b)))
+        ctx.count("edge:fastpow a==0")
     for _ in range(100):
         a, b = [r.choice([rnd(), r.uniform(-100, 100), 10 ** r.uniform(-100, 100)]) for _ in range(2)]
         if a != a or b != b or abs(a) > 1e150 or abs(b) > 1e150:
